@@ -512,11 +512,15 @@ def _spec_form(ex, name, node, st):
         return V(ret, [fn(*args)])
     if ((name in REG.opaque and name not in ex.c.reveal) or name in ex.c.hide) and not getattr(ex, "_tracing_reads", False):
         # opaque ghost function: uninterpreted in (arguments, the heap arrays its definition reads)
-        ret = ex.c.hide.get(name) or REG.opaque[name]
-        argv = [ex.ev(a, st) for a in node.args]
+        hid = ex.c.hide.get(name)
         ptypes = getattr(REG, "opaque_types", {}).get(name)
+        if isinstance(hid, tuple):
+            ret, ptypes = hid
+        else:
+            ret = hid or REG.opaque[name]
+        argv = [ex.ev(a, st) for a in node.args]
         if ptypes:
-            argv = [T.coerce(a, t) for a, t in zip(argv, ptypes)]
+            argv = [T.coerce(T.opt_inner(a) if not isinstance(t, T.Opt) else a, t) for a, t in zip(argv, ptypes)]
         reads = _opaque_reads(ex, name, argv, st)
         args = []
         for a in argv:
